@@ -166,7 +166,7 @@ theorem bindL_lookup : ∀ (ds : List X.Decl) (n : String) (b : LBind), (bindL d
 
 def StmtSpec (G : GCtx) (fuel : Nat) : Prop :=
   ∀ pi ∈ G.procs, ∀ sp dep hi, G.lo ≤ sp → sp + G.S pi + pi.po + pi.p.formals.length ≤ G.spv + 1 → G.spv ≤ sp + dep * G.smax →
-    ∀ s σ, okS5 G.pk G.pnames G.xc.impure G.rho s = true →
+    ∀ s σ, okS5 G.pk G.pnames G.xc.impure G.rho (G.isLoc pi) s = true →
       ExecS (KOf G pi sp dep hi) (G.iEpi pi) (optStmt (annotS G.rho s)) σ (X.exec fuel G.xc s σ)
 
 theorem GCtx.OK.rho_none {G : GCtx} (ok : G.OK) (n : String) (h : ∀ w, G.xc.genv.lookup n ≠ some (.val w)) : G.rho n = none := by
